@@ -3,7 +3,101 @@ import math
 import numpy as np
 from common import *
 
-TOL = fractions.Fraction(1, 10 ** 9)
+F = fractions.Fraction
+TOL = F(1, 10 ** 9)
+TOL32 = F(1, 10 ** 5)       # weights held in binary32: the arithmetic on them is binary32 (eps = 6e-8, n <= 24 terms)
+
+INT_RANGE = {'int8': (-2 ** 7, 2 ** 7 - 1), 'int16': (-2 ** 15, 2 ** 15 - 1), 'int32': (-2 ** 31, 2 ** 31 - 1),
+             'int64': (-2 ** 63, 2 ** 63 - 1), 'uint8': (0, 2 ** 8 - 1), 'uint16': (0, 2 ** 16 - 1),
+             'uint32': (0, 2 ** 32 - 1), 'uint64': (0, 2 ** 64 - 1)}
+
+# ways of holding / scaling a weight vector: everything normalize_weights, compute_ess, weighted_var (since /repo
+# 7d9ef43, which repaired the finding of design_notes/C13.md wave 2), the quantile and GMDistribution are specified for
+KINDS_ALL = ('f64', 'f64_dec', 'f64_dec', 'f64_pow2', 'subnormal', 'f32', 'f32_dec', 'int', 'int', 'int', 'bool',
+             'list_f', 'tuple_f', 'list_i')
+KINDS_EXACT_QUANT = ('f64', 'f64_pow2', 'subnormal_exact', 'int_fit', 'int_fit', 'bool_fit', 'list_i_fit', 'tuple_i_fit',
+                     'list_f')
+DEC_EXTREME = (-323, -320, -310, -300, -250, -200, -170, -162, -160, -155, -154, -150, -100, -30, 30, 100, 150, 153,
+               154, 155, 160, 170, 200, 250, 300)
+POW2_TARGETS = (-1074, -1070, -1050, -1022, -1000, -600, -540, -537, -520, -512, -511, -500, -100, 0, 100, 500, 510,
+                511, 512, 520, 600, 1000, 1015)
+
+
+def mk_weights(vals, rep):
+    """the object handed to the implementation: the numeric values `vals` held as `rep`."""
+    if vals is None:
+        return None
+    if rep in (None, 'float64'):
+        return np.array([float(v) for v in vals], dtype=np.float64)
+    if rep == 'list':
+        return list(vals)
+    if rep == 'tuple':
+        return tuple(vals)
+    if rep == 'bool':
+        return np.array([bool(v) for v in vals], dtype=bool)
+    if rep == 'float32':
+        return np.array([float(v) for v in vals], dtype=np.float32)
+    return np.array([int(v) for v in vals], dtype=rep)
+
+
+def holds_exactly(vals, rep):
+    """`rep` can hold every value of `vals` without rounding."""
+    try:
+        if rep in INT_RANGE:
+            lo, hi = INT_RANGE[rep]
+            return all(F(v).denominator == 1 and lo <= int(F(v)) <= hi for v in vals)
+        if rep == 'bool':
+            return all(F(v) in (0, 1) for v in vals)
+        with np.errstate(all='ignore'):
+            a = mk_weights(vals, rep)
+        got = a.tolist() if isinstance(a, np.ndarray) else list(a)
+        return len(got) == len(vals) and all(math.isfinite(g) and F(g) == F(v) for g, v in zip(got, vals))
+    except (OverflowError, ValueError, TypeError):
+        return False
+
+
+def sum_fits(vals, rep):
+    """the sum of the weights is representable where numpy accumulates it (narrow integers are promoted to 64 bit);
+    float sums keep a factor-4 margin below the largest finite value."""
+    tot = sum(F(v) for v in vals)
+    if rep == 'float32':
+        return tot < F(2) ** 126
+    if rep in ('int64', 'uint64'):
+        return tot <= INT_RANGE[rep][1]
+    if rep in INT_RANGE or rep == 'bool':
+        return True
+    if rep in ('list', 'tuple') and all(isinstance(v, int) for v in vals):
+        return tot <= INT_RANGE['int64'][1] and all(v <= INT_RANGE['int64'][1] for v in vals)
+    return tot < F(2) ** 1022
+
+
+def tol_of(rep):
+    return TOL32 if rep == 'float32' else TOL
+
+
+def exact_number(fr):
+    """a Fraction as the Python number (int or float) with exactly that value, or None."""
+    fr = F(fr)
+    if fr.denominator == 1:
+        return int(fr)
+    try:
+        x = fr.numerator / fr.denominator
+    except OverflowError:
+        return None
+    return x if F(x) == fr else None
+
+
+def ldexp(v, k):
+    try:
+        return math.ldexp(v, k)
+    except OverflowError:
+        return math.inf
+
+
+def log2_floor(fr):
+    fr = F(fr)
+    e = fr.numerator.bit_length() - fr.denominator.bit_length()
+    return e if F(2) ** e <= fr else e - 1
 
 
 def fl(v):
@@ -13,6 +107,18 @@ def fl(v):
     except Exception:
         return None
     return v if math.isfinite(v) else None
+
+
+def fl_list(a):
+    """1-D float result -> list of floats, or None when an entry is nan/inf or the shape is not 1-D."""
+    try:
+        a = np.asarray(a)
+        if a.ndim != 1:
+            return None
+        l = [float(v) for v in a]
+    except Exception:
+        return None
+    return l if all(math.isfinite(v) for v in l) else None
 
 
 class Stop(Exception):
@@ -26,16 +132,20 @@ class C13(PropCheck):
     case_type = 'Quantile.case'
     preds = (('Quantile.agree', 'agree'), ('Quantile.ok', 'ok'))
     chunk = 40
-    rule = ('four case kinds: quant (weighted_sample_quantile directly and through Sample.sample_quantiles / '
+    rule = ('every weight vector is handed over in a generated representation (float64 at a common scale 1e-323..1e300 or '
+            '2^-1074..2^1015, subnormals, float32 incl. its extremes, int8..uint64 up to the dtype maximum / around sqrt(max), '
+            'bool, list, tuple); the model receives the numeric values only.  five case kinds: weights (normalize_weights and '
+            'compute_ess called on the same numbers in two representations and on exact multiples 2^k of them), quant (weighted_sample_quantile directly and through Sample.sample_quantiles / '
             'sample_means_and_95CIs, several alphas per sample, weights and scale*weights), stat (normalize_weights, compute_ess, '
             'weighted_var 1-D and as a column of a 2-D array), pdf (GMDistribution.pdf/logpdf, component densities from '
             'scipy.stats.multivariate_normal as oracle table), rvs (GMDistribution.rvs with a recording box constraint). '
             'non-trivial = quant case with >=2 rows that has a tie in x, a zero weight or an alpha on a cumulative-weight boundary; '
-            'stat case with >=2 positive weights; pdf case with >=2 components; rvs case that needed >=2 trials; distinct by input')
+            'stat case with >=2 positive weights; weights case with >=2 positive weights and >=2 calls; pdf case with >=2 components; rvs case that needed >=2 trials; distinct by input')
     trusted = ('scipy.stats.multivariate_normal.pdf as the normal-density oracle N(x; m, C) (table supplied per case); numpy.log as ln',
                'numpy.argsort returns a permutation that sorts x (checked per case by is_sorting_perm)',
                'binary64 vs Q: exact comparison on dyadic inputs (integer weights with power-of-two sum, dyadic alpha), '
-               'relative tolerance 1e-9 otherwise')
+               'relative tolerance 1e-9 otherwise (1e-5 when the weights are held in binary32)',
+               'a weight array in dtype T is described to the model by the exact rational values of its entries')
 
     # ------------------------------------------------------------------------------------------
     # generators
@@ -82,6 +192,124 @@ class C13(PropCheck):
                 left -= b
         return [float(v) for v in w], k
 
+    # -- representations of a weight vector ------------------------------------------------------------------
+    def _int_values(self, base, top):
+        m = max(base)
+        return [0 if v == 0 else min(top, max(1, int(round(v / m * top)))) for v in base]
+
+    def _try_represent(self, base, kind):
+        """`base`: non-negative floats of ordinary size -> (numeric values as Python floats/ints, representation)."""
+        r = self.rng
+        n = len(base)
+        with np.errstate(all='ignore'):
+            if kind == 'f64':
+                return [float(v) for v in base], 'float64'
+            if kind == 'f64_dec':
+                c = 10.0 ** r.choice(DEC_EXTREME + (r.randint(-323, 300), r.randint(-323, 300)))
+                return [float(v * c) for v in base], 'float64'
+            if kind == 'f64_pow2':
+                k = r.choice(POW2_TARGETS + (r.randint(-1074, 1015),))
+                return [ldexp(v, k - 1) for v in base], 'float64'
+            if kind == 'subnormal':
+                return [float(i * 5e-324) for i in self._int_values(base, 2 ** r.randint(0, 40))], 'float64'
+            if kind == 'f32':
+                return [float(v) for v in np.array(base, dtype=np.float32)], 'float32'
+            if kind == 'f32_dec':
+                c = 10.0 ** r.choice([-45, -44, -40, -38, -30, -25, -20, -19, -18, -10, 10, 18, 19, 20, 25, 30, 37,
+                                      r.randint(-45, 37)])
+                return [float(v) for v in (np.array(base, dtype=np.float64) * c).astype(np.float32)], 'float32'
+            if kind == 'int':
+                dt = r.choice(sorted(INT_RANGE))
+                hi = INT_RANGE[dt][1]
+                cap = hi // n if dt in ('int64', 'uint64') else hi
+                style = r.choice(['small', 'max', 'sqrt', 'any'])
+                top = {'small': 9, 'max': cap, 'sqrt': math.isqrt(hi) * r.choice([1, 1, 2, 3]), 'any': r.randint(1, cap)}[style]
+                self.bump('weights int magnitude=' + style)
+                return self._int_values(base, max(1, min(cap, top))), dt
+            if kind == 'bool':
+                return [1 if v > 0 else 0 for v in base], 'bool'
+            if kind in ('list_f', 'tuple_f'):
+                return [float(v) for v in base], kind.split('_')[0]
+            if kind == 'list_i':
+                return self._int_values(base, r.choice([9, 1000, 2 ** 31, 2 ** 40, 2 ** 58 // n])), 'list'
+        raise ValueError(kind)
+
+    def _represent(self, base, kinds=KINDS_ALL, what=''):
+        for _ in range(8):
+            kind = self.rng.choice(kinds)
+            vals, rep = self._try_represent(base, kind)
+            if (all(math.isfinite(v) for v in vals) and all((b > 0) == (v > 0) for b, v in zip(base, vals))
+                    and holds_exactly(vals, rep) and sum_fits(vals, rep)):
+                break
+        else:
+            kind, vals, rep = 'f64', [float(v) for v in base], 'float64'
+        self.bump('%sweights as %s' % (what, kind if kind != 'int' else rep))
+        return vals, rep
+
+    def _represent_pow2_ints(self, ws):
+        """exact quantile mode: integer weights (sum a power of two <= 128) in a container that holds them, or
+        times an exact common factor 2^k (down to subnormals)."""
+        r = self.rng
+        ints = [int(v) for v in ws]
+        top = max(ints)
+        for _ in range(8):
+            kind = r.choice(['f64', 'f64', 'pow2', 'pow2', 'int', 'int', 'int', 'bool', 'list_i', 'tuple_i', 'list_f'])
+            if kind == 'f64':
+                vals, rep = [float(v) for v in ints], 'float64'
+            elif kind == 'pow2':
+                k = r.choice([-1074, -1073, -1070, -1022, -1000, -600, -512, -100, 100, 512, 600, 1000, 1015, r.randint(-1074, 1015)])
+                vals, rep = [ldexp(float(v), k) for v in ints], 'float64'
+            elif kind == 'int':
+                rep = r.choice([d for d in sorted(INT_RANGE) if INT_RANGE[d][1] >= top])
+                vals = ints
+                kind = rep
+            elif kind == 'bool':
+                vals, rep = ints, 'bool'
+            elif kind == 'list_f':
+                vals, rep = [float(v) for v in ints], 'list'
+            else:
+                vals, rep = ints, kind.split('_')[0]
+            if holds_exactly(vals, rep) and sum_fits(vals, rep) and all(F(v) * top == F(vals[ints.index(top)]) * i
+                                                                        for v, i in zip(vals, ints)):
+                self.bump('quant exact weights as ' + kind)
+                return vals, rep
+        return [float(v) for v in ints], 'float64'
+
+    def _exact_scale_k(self, vals, n):
+        """k such that every 2^k * v is a binary64 (no rounding, no overflow of the sum); spans the whole range."""
+        r = self.rng
+        pos = [F(v) for v in vals if v > 0]
+        if not pos:
+            return r.randint(-4, 6)
+        e_hi = log2_floor(max(pos))
+        for _ in range(12):
+            k = r.choice(POW2_TARGETS + (r.randint(-1074, 1015), r.randint(-1074, 1015))) - e_hi
+            if r.random() < 0.25:
+                k = r.randint(-4, 6)
+            sv = [exact_number(F(v) * F(2) ** k) for v in vals]
+            if all(x is not None for x in sv) and holds_exactly(sv, 'float64') and sum_fits(sv, 'float64'):
+                return k
+        return 0
+
+    def _float_scale(self, vals, n):
+        """a common factor c such that every c * v (v > 0) stays a normal binary64 and the sum stays finite."""
+        r = self.rng
+        pos = [float(v) for v in vals if v > 0]
+        cands = [r.uniform(0.1, 10), 1e-6, 3.0, 1e5]
+        r.shuffle(cands)
+        if pos:
+            m = math.floor(math.log10(max(pos)))
+            ext = [t - m for t in (-285, -250, -200, -170, -160, -155, -150, -100, 100, 150, 153, 155, 160, 200, 250, 295,
+                                   r.randint(-285, 295))]
+            r.shuffle(ext)
+            ext = [10.0 ** e for e in ext if -307 <= e <= 307]
+            cands = (ext[:2] + cands) if r.random() < 0.6 else cands
+        for c in cands:
+            if all(1e-290 <= v * c <= 1e300 / n for v in pos):
+                self.bump('quant float scale %s' % ('extreme' if not 1e-7 < c < 1e6 else 'ordinary'))
+                return c
+        return 1.0
+
     def gen_quant(self, malformed=False):
         r = self.rng
         exact = malformed or r.random() < 0.6
@@ -115,6 +343,12 @@ class C13(PropCheck):
             if r.random() < 0.3:
                 r.shuffle(alphas)
             scale = 2.0 ** r.randint(-4, 6)
+            if ws is not None and not malformed:
+                ws, case['wrep'] = self._represent_pow2_ints(ws)
+                case['scale_k'] = self._exact_scale_k(ws, n)
+                scale = None
+                self.bump('quant exact scaled weights at 2^%s' % (lambda e: '(<-1022)' if e < -1022 else '(-1022..-500)' if e < -500
+                          else '(-500..500)' if e <= 500 else '(>500)')(log2_floor(max(F(v) for v in ws)) + case['scale_k']))
             if malformed:
                 m = r.choice(['alpha_gt1', 'alpha_lt0', 'empty', 'zero_w', 'short_w', 'neg_w'])
                 case['malformed'] = m
@@ -161,11 +395,13 @@ class C13(PropCheck):
                     ws[min(range(n), key=lambda i: xs[i])] = 0.7
                 alphas.append(1.0)
                 self.bump('quant float zero-weight maximum, alpha=1')
-            scale = r.choice([r.uniform(0.1, 10), 1e-6, 3.0, 1e5])
+            if ws is not None and r.random() < 0.6:
+                ws, case['wrep'] = self._represent(ws, what='quant float ')
+            scale = self._float_scale(ws, n) if ws is not None else 1.0
             self.bump('quant float w=' + wstyle)
         self.bump('quant exact' if exact else 'quant float')
         self.bump('quant n=%s' % (n if n < 5 else '5-8' if n <= 8 else '9+'))
-        case.update(xs=xs, ws=ws, alphas=[float(a) for a in alphas], scale=float(scale))
+        case.update(xs=xs, ws=ws, alphas=[float(a) for a in alphas], scale=None if scale is None else float(scale))
         return case
 
     def gen_stat(self, malformed=False):
@@ -191,10 +427,12 @@ class C13(PropCheck):
         if ws is not None and sum(ws) <= 0:
             ws[r.randrange(n)] = 1.0
         if ws is not None and sum(1 for v in ws if v > 0) < 2:
-            # one effective observation: the variance is 0/0; in binary64 (w*w)/w need not equal w, so the code
-            # returns -0.0 or garbage instead of nan unless the weight is a small integer -- keep it an integer
-            ws = [float(math.ceil(v * 8)) for v in ws]
-            self.bump('stat single effective observation (integer weight)')
+            # one effective observation: the variance is 0/0 -- in every representation, because the code normalises
+            # first and w / w == 1.0 exactly
+            self.bump('stat single effective observation')
+        wrep = None
+        if ws is not None and not malformed and r.random() < 0.7:
+            ws, wrep = self._represent(ws, what='stat ')
         m = None
         if malformed:
             m = r.choice(['neg_w', 'zero_w', 'short_w', 'empty'])
@@ -212,7 +450,75 @@ class C13(PropCheck):
             self.bump('stat malformed=' + m)
         else:
             self.bump('stat w=' + wstyle)
-        return dict(kind='stat', xs=xs, ws=ws, malformed=m, extra_col=[r.uniform(-3, 3) for _ in xs])
+        return dict(kind='stat', xs=xs, ws=ws, wrep=None if m else wrep, malformed=m, extra_col=[r.uniform(-3, 3) for _ in xs])
+
+    def gen_weights(self, malformed=False):
+        """normalize_weights / compute_ess on one vector of numeric weights: in a generated representation, the same
+        numbers in a second representation, and exact multiples 2^k of them (k over the whole binary64 range)."""
+        r = self.rng
+        n = r.choice([1, 2, 2, 3, 4, 5, 8, 14, r.randint(1, 24)])
+        style = r.choice(['uniform', 'zeros', 'equal', 'dominant', 'importance', 'counts'])
+        if style == 'uniform':
+            base = [r.uniform(0.05, 1) for _ in range(n)]
+        elif style == 'zeros':
+            base = [0.0 if r.random() < 0.4 else r.uniform(0.05, 1) for _ in range(n)]
+        elif style == 'equal':
+            base = [r.choice([1.0, 0.25, 0.7])] * n
+        elif style == 'dominant':
+            base = [r.uniform(1e-6, 1e-3) for _ in range(n)]
+            base[r.randrange(n)] = 1.0
+        elif style == 'importance':       # exp(log p - log q): many orders of magnitude inside one vector
+            base = [math.exp(r.gauss(0, r.choice([1, 5, 15]))) for _ in range(n)]
+        else:
+            base = [float(r.randint(0, 20)) for _ in range(n)]
+        if sum(base) <= 0:
+            base[r.randrange(n)] = 1.0
+        self.bump('weights style=' + style)
+        if malformed:
+            m = r.choice(['neg', 'neg', 'zero', 'empty'])
+            if m == 'neg':
+                rep = r.choice(['float64', 'float32', 'int8', 'int32', 'int64', 'list'])
+                vals = [int(r.randint(0, 9)) for _ in range(n)]
+                vals[r.randrange(n)] = -r.randint(1, 9)
+                if rep in ('float64', 'float32'):
+                    vals = [v * 0.25 for v in vals]
+            elif m == 'zero':
+                rep = r.choice(['float64', 'float32', 'uint8', 'int64', 'bool', 'list', 'tuple'])
+                vals = [0] * n if rep not in ('float64', 'float32') else [0.0] * n
+            else:
+                rep = r.choice(['float64', 'int32', 'list'])
+                vals = []
+            self.bump('weights malformed=%s as %s' % (m, rep))
+            return dict(kind='weights', ws=vals, runs=[dict(k=0, rep=rep, vals=vals)], malformed=m)
+        vals, rep = self._represent(base, what='ess ')
+        runs = [dict(k=0, rep=rep, vals=vals)]      # `vals`: the very Python numbers put into the container
+        alts = [a for a in ['float64', 'float32', 'list', 'tuple', 'bool'] + sorted(INT_RANGE)
+                if a != rep and holds_exactly(vals, a) and sum_fits(vals, a)]
+        if alts:
+            a = r.choice(alts)
+            runs.append(dict(k=0, rep=a, vals=vals))
+            self.bump('ess same numbers also as ' + a)
+        pos = [F(v) for v in vals if v > 0]
+        e_hi = log2_floor(max(pos))
+        for _ in range(r.randint(1, 3)):
+            for _try in range(12):
+                k = r.choice(POW2_TARGETS + (r.randint(-1074, 1015), r.randint(-1074, 1015))) - e_hi
+                if r.random() < 0.15:
+                    k = r.randint(-6, 6)
+                sv = [exact_number(F(v) * F(2) ** k) for v in vals]
+                if any(x is None for x in sv):
+                    continue
+                reps = [a for a in ['float64', 'float64', 'float64', 'float32', 'list'] + sorted(INT_RANGE)
+                        if holds_exactly(sv, a) and sum_fits(sv, a)]
+                if reps and k != 0:
+                    a = r.choice(reps)
+                    runs.append(dict(k=k, rep=a, vals=sv))
+                    t = e_hi + k
+                    self.bump('ess multiple 2^k*w as %s, largest weight at 2^%s' % (
+                        a, '(<-1022)' if t < -1022 else '(-1022..-500)' if t < -500 else '(-500..500)' if t <= 500 else '(>500)'))
+                    break
+        self.bump('weights n=%s' % (n if n < 5 else '5-8' if n <= 8 else '9+'))
+        return dict(kind='weights', ws=vals, runs=runs, malformed=None)
 
     def gen_pdf(self, malformed=False):
         r = self.rng
@@ -245,6 +551,9 @@ class C13(PropCheck):
             if k > 1:
                 ws[(ws.index(2.0) + 1) % k] = 0.0
         m = None
+        wrep = None
+        if ws is not None and not malformed and r.random() < 0.6:
+            ws, wrep = self._represent(ws, what='pdf ')
         if malformed:
             m = r.choice(['neg_w', 'zero_w'])
             ws = [1.0] * k
@@ -256,7 +565,7 @@ class C13(PropCheck):
         else:
             self.bump('pdf d=%d' % d)
             self.bump('pdf w=' + wstyle)
-        return dict(kind='pdf', d=d, means=means, pts=pts, cov=cov, ws=ws, malformed=m)
+        return dict(kind='pdf', d=d, means=means, pts=pts, cov=cov, ws=ws, wrep=wrep, malformed=m)
 
     def gen_rvs(self):
         r = self.rng
@@ -264,7 +573,12 @@ class C13(PropCheck):
         k = r.randint(1, 4) if d == 1 else r.randint(2, 4)
         means = [[round(r.uniform(-2, 2), 2) for _ in range(d)] for _ in range(k)]
         cov = r.choice([1.0, 0.5, 2.0]) if (d == 1 or r.random() < 0.5) else (np.eye(d) * r.uniform(0.3, 2)).tolist()
-        ws = r.choice([None, [float(r.randint(1, 5)) for _ in range(k)]])
+        ws = r.choice([None, [float(r.randint(1, 5)) for _ in range(k)], [r.choice([0.0, 1.0, 1.0]) * r.uniform(0.05, 1) for _ in range(k)]])
+        wrep = None
+        if ws is not None and sum(ws) <= 0:
+            ws[r.randrange(k)] = 1.0
+        if ws is not None and r.random() < 0.6:
+            ws, wrep = self._represent(ws, what='rvs ')
         size = r.choice([0, 1, 1, 2, 3, 5, 8, 12])
         tight = r.choice(['none', 'wide', 'medium', 'narrow'])
         c = means[r.randrange(k)]
@@ -272,7 +586,7 @@ class C13(PropCheck):
         box = None if half is None else [[c[j] - half * r.uniform(0.5, 1), c[j] + half * r.uniform(0.5, 1)] for j in range(d)]
         self.bump('rvs box=' + tight)
         self.bump('rvs d=%d' % d)
-        return dict(kind='rvs', d=d, means=means, cov=cov, ws=ws, size=size, box=box,
+        return dict(kind='rvs', d=d, means=means, cov=cov, ws=ws, wrep=wrep, size=size, box=box,
                     outside=r.choice(['-inf', 'nan', '+inf']), seed=r.randrange(2 ** 31))
 
     def gen_gm1(self):
@@ -297,6 +611,10 @@ class C13(PropCheck):
             yield self.gen_stat()
         for _ in range(25 * f):
             yield self.gen_stat(malformed=True)
+        for _ in range(120 * f):
+            yield self.gen_weights()
+        for _ in range(20 * f):
+            yield self.gen_weights(malformed=True)
         for _ in range(70 * f):
             yield self.gen_pdf()
         for _ in range(10 * f):
@@ -324,8 +642,14 @@ class C13(PropCheck):
         from elfi.methods.utils import weighted_sample_quantile
         from elfi.methods.results import Sample
         x = np.array(case['xs'], dtype=float)
-        w = None if case['ws'] is None else np.array(case['ws'], dtype=float)
-        ws = None if w is None else w * case['scale']
+        w = mk_weights(case['ws'], case.get('wrep'))
+        if w is None:
+            ws = None
+        elif case.get('scale_k') is not None:      # exact multiples 2^k * w, as binary64
+            ws = mk_weights([exact_number(F(v) * F(2) ** case['scale_k']) for v in case['ws']], 'float64')
+        else:
+            with np.errstate(all='ignore'):
+                ws = np.array([float(v) for v in case['ws']], dtype=np.float64) * case['scale']
         runs = []
         for a in case['alphas']:
             q, e = self._call(weighted_sample_quantile, x, a, w)
@@ -345,15 +669,16 @@ class C13(PropCheck):
     def impl_stat(self, case):
         from elfi.methods.utils import normalize_weights, compute_ess, weighted_var
         x = np.array(case['xs'], dtype=float)
-        w = None if case['ws'] is None else np.array(case['ws'], dtype=float)
+        w = mk_weights(case['ws'], case.get('wrep'))
         out = dict(norm=None, ess=None)
         if w is not None:
-            nw, e = self._call(normalize_weights, w)
-            out['norm'] = None if e else [float(v) for v in nw]
-            out['norm_err'] = e
-            es, e = self._call(compute_ess, w)
-            out['ess'] = None if e else fl(es)
-            out['ess_err'] = e
+            with np.errstate(all='ignore'):
+                nw, e = self._call(normalize_weights, w)
+                out['norm'] = None if e else fl_list(nw)
+                out['norm_err'] = e
+                es, e = self._call(compute_ess, w)
+                out['ess'] = None if e else fl(es)
+                out['ess_err'] = e
         with np.errstate(all='ignore'):
             v, e = self._call(weighted_var, x, w)
             out['var'] = None if e else fl(v)
@@ -367,6 +692,23 @@ class C13(PropCheck):
                 out['var_col1'] = None if e1 else fl(v1)
         return out
 
+    def impl_weights(self, case):
+        from elfi.methods.utils import normalize_weights, compute_ess
+        runs = []
+        for rn in case['runs']:
+            sv = rn['vals']
+            w = mk_weights(sv, rn['rep'])
+            held = [F(v) for v in (w.tolist() if isinstance(w, np.ndarray) else w)]
+            assert held == [F(v) * F(2) ** rn['k'] for v in case['ws']], 'harness: %s does not hold 2^k * w' % rn['rep']
+            with np.errstate(all='ignore'):
+                nw, e1 = self._call(normalize_weights, w)
+                es, e2 = self._call(compute_ess, w)
+            after = [F(v) for v in (w.tolist() if isinstance(w, np.ndarray) else w)]
+            runs.append(dict(norm=None if e1 else fl_list(nw), norm_err=e1, ess=None if e2 else fl(es), ess_err=e2,
+                             raw_ess=None if e2 else repr(es), mutated=after != held,
+                             nonfinite=(e1 is None and fl_list(nw) is None) or (e2 is None and fl(es) is None)))
+        return dict(runs=runs)
+
     @staticmethod
     def _shape_args(case):
         d = case['d']
@@ -376,7 +718,7 @@ class C13(PropCheck):
             means = means[:, 0]
             pts = None if pts is None else pts[:, 0]
         cov = case['cov'] if not isinstance(case['cov'], list) else np.array(case['cov'])
-        w = None if case['ws'] is None else np.array(case['ws'], dtype=float)
+        w = mk_weights(case['ws'], case.get('wrep'))
         return means, pts, cov, w
 
     def impl_pdf(self, case):
@@ -462,6 +804,10 @@ class C13(PropCheck):
                                 % (rn['alpha'], rn['via_sample'], rn['q'])))
             if out['ci'] is not None and out['ci'] != out['ci_direct']:
                 bad.append(('sample_95CI', 'sample_means_and_95CIs %r != direct quantiles %r' % (out['ci'], out['ci_direct'])))
+        elif k == 'weights':
+            for rn, o in zip(case['runs'], out['runs']):
+                if o['mutated']:
+                    bad.append(('weights_not_mutated', 'the caller\'s weights (2^%d * w as %s) were modified' % (rn['k'], rn['rep'])))
         elif k == 'stat':
             if case['malformed'] is None and out.get('var_2d') is not None:
                 if out['var_2d'][0] != out['var'] or out['var_2d'][1] != out['var_col1']:
@@ -479,14 +825,19 @@ class C13(PropCheck):
                 import scipy.stats as ss
                 from scipy.special import logsumexp
                 means, pts, cov, w = self._shape_args(case)
-                wn = np.ones(len(means)) / len(means) if w is None else w / w.sum()
+                if w is None:
+                    wn = np.ones(len(means)) / len(means)
+                else:       # exact normalised weights of the numeric values, whatever their representation
+                    tot = sum(F(v) for v in case['ws'])
+                    wn = np.array([float(F(v) / tot) for v in case['ws']])
+                rt = 1e-5 if case.get('wrep') == 'float32' else 1e-10
                 for j, x in enumerate(pts):
                     ref = sum(wn[i] * ss.multivariate_normal.pdf(x, mean=means[i], cov=cov) for i in range(len(means)))
-                    if not math.isclose(ref, out['pdf'][j], rel_tol=1e-10, abs_tol=1e-300):
+                    if not math.isclose(ref, out['pdf'][j], rel_tol=rt, abs_tol=1e-300):
                         bad.append(('pdf_scipy', 'pdf[%d]=%r, scipy mixture sum=%r' % (j, out['pdf'][j], ref)))
                     lref = logsumexp([np.log(wn[i]) + ss.multivariate_normal.logpdf(x, mean=means[i], cov=cov)
                                       for i in range(len(means)) if wn[i] > 0])
-                    if out['logpdf'] is None or not math.isclose(lref, out['logpdf'][j], rel_tol=1e-9, abs_tol=1e-9):
+                    if out['logpdf'] is None or not math.isclose(lref, out['logpdf'][j], rel_tol=10 * rt, abs_tol=10 * rt):
                         bad.append(('logpdf_scipy', 'logpdf[%d]=%r, logsumexp reference=%r' % (j, out['logpdf'] and out['logpdf'][j], lref)))
                     if out['logpdf'] is not None and out['logpdf'][j] != float(np.log(out['pdf'][j])):
                         bad.append(('logpdf_is_log_pdf', 'logpdf[%d]=%r != log(pdf)=%r' % (j, out['logpdf'][j], float(np.log(out['pdf'][j])))))
@@ -542,6 +893,9 @@ class C13(PropCheck):
                 return None
             if len(case['xs']) < 2:
                 return None
+        elif k == 'weights':
+            if sum(1 for v in case['ws'] if v > 0) < 2 or len(case['runs']) < 2:
+                return None
         elif k == 'pdf':
             if len(case['means']) < 2:
                 return None
@@ -569,16 +923,22 @@ class C13(PropCheck):
     def to_coq(self, case, out):
         k = case['kind']
         if k == 'quant':
-            tol = 0 if case['exact'] else TOL
+            tol = 0 if case['exact'] else tol_of(case.get('wrep'))
+            scale = F(2) ** case['scale_k'] if case.get('scale_k') is not None else case['scale']
             runs = clist(['{| r_alpha := %s; r_impl := %s; r_impl_scaled := %s |}'
                           % (cq(rn['alpha']), copt(rn['q'], cq), copt(rn['qs'], cq)) for rn in out['runs']])
-            return 'CQuant %s %s %s %s %s %s' % (self._ql(case['xs']), self._qlo(case['ws']), cq(tol), cq(case['scale']),
+            return 'CQuant %s %s %s %s %s %s' % (self._ql(case['xs']), self._qlo(case['ws']), cq(tol), cq(scale),
                                                  clist([cnat(i) for i in out['index']]), runs)
         if k == 'stat':
-            return 'CStat %s %s %s %s %s %s' % (self._ql(case['xs']), self._qlo(case['ws']), cq(TOL), self._qlo(out['norm']),
+            return 'CStat %s %s %s %s %s %s' % (self._ql(case['xs']), self._qlo(case['ws']), cq(tol_of(case.get('wrep'))), self._qlo(out['norm']),
                                                 copt(out['ess'], cq), copt(out['var'], cq))
+        if k == 'weights':
+            runs = clist(['{| w_scale := %s; w_tol := %s; w_norm := %s; w_ess := %s |}'
+                          % (cq(F(2) ** rn['k']), cq(tol_of(rn['rep'])), self._qlo(o['norm']), copt(o['ess'], cq))
+                          for rn, o in zip(case['runs'], out['runs'])])
+            return 'CWeights %s %s' % (self._ql(case['ws']), runs)
         if k == 'pdf':
-            return 'CPdf %s %s %s %s' % (clist([self._ql(d) for d in out['dens']]), self._qlo(case['ws']), cq(TOL),
+            return 'CPdf %s %s %s %s' % (clist([self._ql(d) for d in out['dens']]), self._qlo(case['ws']), cq(tol_of(case.get('wrep'))),
                                          self._qlo(out['pdf']))
         if k == 'rvs':
             if out['out'] is None:
